@@ -195,3 +195,16 @@ def case_from_json(c):
     c = dict(c)
     c["v"] = [1 if ch == "A" else 0 for ch in c["v"]]
     return c
+
+
+def path_through_symlink(tmp, name):
+    """-> (path, decoy): `path` = <tmp>/lnk/../<name> where lnk is a symbolic link to <tmp>/deep/a, i.e. the file <tmp>/deep/<name>
+    as the operating system resolves it; `decoy` = <tmp>/<name>, the file a LEXICAL normalisation of the path would open.
+    The caller writes the real audio to `path` and something else to `decoy`."""
+    import os
+
+    os.makedirs(os.path.join(tmp, "deep", "a"), exist_ok=True)
+    lnk = os.path.join(tmp, "lnk")
+    if not os.path.islink(lnk):
+        os.symlink(os.path.join("deep", "a"), lnk)
+    return os.path.join(tmp, "lnk", "..", name), os.path.join(tmp, name)
